@@ -1,6 +1,6 @@
 (* TxPhaseProofs.v — proofs about the model TxPhase.v (property C02). *)
 From Verif Require Import Base TxPhase.
-From Coq Require Import Sorting.Sorted String.
+From Coq Require Import Sorting.Sorted.
 Open Scope N_scope.
 
 Ltac sx := cbn [st_last st_engine st_intr st_dintr st_allow st_reqlen st_resplen st_conn st_uri
@@ -943,7 +943,7 @@ Definition ex_waf (e : tp_mode) : tp_waf :=
       mkRaw 12 1 CTrue None None [DPass] None;
       mkRaw 20 2 CUri (Some CConn) None [DPass; DDeny] None;
       mkRaw 30 3 CRespHdr None None [DDeny; DBlock] None;
-      mkRaw 40 4 CTrue None None [DRedirect (str "/x"%string)] (Some 308);
+      mkRaw 40 4 CTrue None None [DRedirect [47; 120]] (Some 308);
       mkRaw 50 5 CTrue None None [DDeny] None;
       mkRaw 51 5 CTrue None None [DPass] None ]
     true 8%Z LReject true 8%Z LPartial.
@@ -970,7 +970,7 @@ Proof. vm_compute. auto. Qed.
 (* redirect with a status outside the whitelist becomes 302 *)
 Example ex_phase4 :
   let s := tp_run (tp_compile (ex_waf MOn)) [KPRespB; KPRH; KPRB; KPRespH; KPRespH; KWResp 9; KLog] in
-  st_intr s = Some (mkIntr 40 KRedirect 302 (str "/x"%string)) /\ st_last s = 5.
+  st_intr s = Some (mkIntr 40 KRedirect 302 [47; 120]) /\ st_last s = 5.
 Proof. vm_compute. auto. Qed.
 
 (* only ProcessLogging is called *)
@@ -1012,3 +1012,380 @@ Example ex_plain :
   tp_plain c = true /\ tp_spec_first s 1 (c_rules c) = Some (mkIntr 11 KDeny 401 []) /\
   map r_id (tp_spec_evaluated s 1 false (c_rules c)) = [10; 11].
 Proof. vm_compute. auto. Qed.
+
+
+(* ---------------------------------------------------------------------------------- *)
+(* a generic preservation lemma for the API                                            *)
+(* ---------------------------------------------------------------------------------- *)
+
+(* when RuleGroup.Eval is entered for phase p *)
+Definition eval_pre (s : tp_state) (p : N) : Prop :=
+  (1 <= p <= 4 /\ st_last s < p /\ st_intr s = None) \/ p = 5.
+
+Lemma step_pres_gen (P : tp_state -> Prop) c :
+  (forall s a b c d, P s -> P (set_flags s a b c d)) ->
+  (forall s z, P s -> P (set_reqlen s z)) ->
+  (forall s z, P s -> P (set_resplen s z)) ->
+  (forall s st, P s -> P (tp_limit_intr s st)) ->
+  (forall s p, P s -> eval_pre s p -> P (tp_eval_phase c p s)) ->
+  forall s k, P s -> P (fst (tp_step c s k)).
+Proof.
+  intros Hf Hq Hr Hl He.
+  assert (Hprb : forall s, P s -> P (fst (tp_prb c s))).
+  { intros s H. unfold tp_prb. destruct (is_off s); [exact H|].
+    destruct (is_some (st_intr s)) eqn:E; [exact H|].
+    destruct (N.eqb_spec (st_last s) 1) as [L|L]; cbn [negb]; [|exact H].
+    sx. apply He; [exact H|]. left. repeat split; try lia. apply intr_none_of_is_some, E. }
+  assert (Hprespb : forall s, P s -> P (fst (tp_prespb c s))).
+  { intros s H. unfold tp_prespb. destruct (is_off s); [exact H|].
+    destruct (is_some (st_intr s)) eqn:E; [exact H|].
+    destruct (N.eqb_spec (st_last s) 3) as [L|L]; cbn [negb]; [|exact H].
+    sx. apply He; [exact H|]. left. repeat split; try lia. apply intr_none_of_is_some, E. }
+  intros s k H. destruct k; cbn [tp_step].
+  1-4: apply Hf, H.
+  - unfold tp_prh. destruct (is_off s); [exact H|].
+    destruct (N.leb_spec 1 (st_last s)); [exact H|].
+    destruct (is_some (st_intr s)) eqn:E; [exact H|].
+    sx. apply He; [exact H|]. left. repeat split; try lia. apply intr_none_of_is_some, E.
+  - pose proof (Hprb s H) as K. destruct (tp_prb c s); exact K.
+  - unfold tp_presph. destruct (is_off s); [exact H|].
+    destruct (N.leb_spec 3 (st_last s)); [exact H|].
+    destruct (is_some (st_intr s)) eqn:E; [exact H|].
+    sx. apply He; [exact H|]. left. repeat split; try lia. apply intr_none_of_is_some, E.
+  - pose proof (Hprespb s H) as K. destruct (tp_prespb c s); exact K.
+  - unfold tp_log. destruct (is_off s); [exact H|]. apply He; [exact H | right; reflexivity].
+  - apply body_write_pres; auto.
+  - apply body_write_pres; auto.
+  - apply body_write_pres; auto.
+  - apply body_write_pres; auto.
+Qed.
+
+(* ---------------------------------------------------------------------------------- *)
+(* one Eval: the evaluated rules are a prefix of the phase's rules in configuration order *)
+(* ---------------------------------------------------------------------------------- *)
+
+Definition tp_phase_rules (c : tp_cfg) (p : N) : list tp_rule :=
+  filter (fun r => r_phase r =? p) (c_rules c).
+
+Definition is_rule_event (p : N) (e : tp_event) (r : tp_rule) : Prop := exists st, e = EvRule p r st.
+
+Lemma eval_loop_prefix p rs : forall s,
+  exists evs, st_trace (tp_eval_loop p rs s) = st_trace s ++ evs /\
+    Forall2 (is_rule_event p) evs (firstn (length evs) (filter (fun r => r_phase r =? p) rs)).
+Proof.
+  induction rs as [|r rs IH]; intro s; cbn [tp_eval_loop filter].
+  { exists []. rewrite app_nil_r. split; [reflexivity | constructor]. }
+  assert (Stop : exists evs, st_trace s = st_trace s ++ evs /\
+      Forall2 (is_rule_event p) evs
+        (firstn (length evs) (if r_phase r =? p then r :: filter (fun r => r_phase r =? p) rs
+                              else filter (fun r => r_phase r =? p) rs))).
+  { exists []. rewrite app_nil_r. split; [reflexivity | constructor]. }
+  destruct (is_some (st_intr s) && negb (p =? 5)); [exact Stop|].
+  destruct (r_phase r =? p) eqn:Eph; cbn [negb]; [|apply IH].
+  assert (Go : exists evs, st_trace (tp_eval_loop p rs (tp_eval_rule p r s)) = st_trace s ++ evs /\
+      Forall2 (is_rule_event p) evs (firstn (length evs) (r :: filter (fun r => r_phase r =? p) rs))).
+  { destruct (IH (tp_eval_rule p r s)) as (evs & Ht & Hf).
+    destruct (eval_rule_core p r s) as (Ht1 & _).
+    destruct (rule_event_shape p r s) as [st Est].
+    exists (tp_rule_event p r s :: evs). split.
+    - rewrite Ht, Ht1, <- app_assoc. reflexivity.
+    - cbn [length firstn]. constructor; [exists st; exact Est | exact Hf]. }
+  destruct (st_allow s) as [[]|]; try exact Go; try exact Stop.
+  - destruct (p =? 1); [exact Stop|]. destruct (p =? 2); [exact Stop | exact Go].
+  - destruct (p =? 5); [exact Go | exact Stop].
+Qed.
+
+Lemma eval_phase_prefix_holds c p s :
+  exists evs, st_trace (tp_eval_phase c p s) = st_trace s ++ EvPhase p :: evs /\
+    Forall2 (is_rule_event p) evs (firstn (length evs) (tp_phase_rules c p)).
+Proof.
+  unfold tp_eval_phase.
+  destruct (eval_loop_prefix p (c_rules c) (add_event (set_last s p) (EvPhase p))) as (evs & Ht & Hf).
+  exists evs. split; [|exact Hf].
+  destruct (st_allow _) as [[]|]; sx; rewrite Ht; sx; rewrite <- app_assoc; reflexivity.
+Qed.
+
+(* ---------------------------------------------------------------------------------- *)
+(* the history is ordered by phase                                                     *)
+(* ---------------------------------------------------------------------------------- *)
+
+Fixpoint nondecr (lo : N) (t : list tp_event) : bool :=
+  match t with
+  | [] => true
+  | e :: t' => match tp_ev_phase e with
+               | Some p => (lo <=? p) && nondecr p t'
+               | None => nondecr lo t'
+               end
+  end.
+
+Fixpoint last_ph (lo : N) (t : list tp_event) : N :=
+  match t with
+  | [] => lo
+  | e :: t' => match tp_ev_phase e with Some p => last_ph p t' | None => last_ph lo t' end
+  end.
+
+Lemma nondecr_app t1 : forall lo t2,
+  nondecr lo (t1 ++ t2) = nondecr lo t1 && nondecr (last_ph lo t1) t2.
+Proof.
+  induction t1 as [|e t1 IH]; intros lo t2; cbn [app nondecr last_ph]; [reflexivity|].
+  destruct (tp_ev_phase e); rewrite IH; [rewrite andb_assoc|]; reflexivity.
+Qed.
+
+Lemma last_ph_app t1 : forall lo t2, last_ph lo (t1 ++ t2) = last_ph (last_ph lo t1) t2.
+Proof.
+  induction t1 as [|e t1 IH]; intros lo t2; cbn [app last_ph]; [reflexivity|].
+  destruct (tp_ev_phase e); apply IH.
+Qed.
+
+Lemma nondecr_ge t : forall lo, nondecr lo t = true ->
+  forall e p, In e t -> tp_ev_phase e = Some p -> lo <= p.
+Proof.
+  induction t as [|x t IH]; intros lo H e p Hin0 Hp; [contradiction|].
+  destruct Hin0 as [->|Hin]; cbn [nondecr] in H.
+  - rewrite Hp in H. apply andb_true_iff in H as [H _]. apply N.leb_le, H.
+  - destruct (tp_ev_phase x) as [q|].
+    + apply andb_true_iff in H as [H1 H2]. apply N.leb_le in H1.
+      specialize (IH q H2 e p Hin Hp). lia.
+    + apply (IH lo H e p Hin Hp).
+Qed.
+
+Lemma last_ph_ge t : forall lo, nondecr lo t = true -> lo <= last_ph lo t.
+Proof.
+  induction t as [|x t IH]; intros lo H; cbn [nondecr last_ph] in *; [lia|].
+  destruct (tp_ev_phase x) as [q|].
+  - apply andb_true_iff in H as [H1 H2]. apply N.leb_le in H1. specialize (IH q H2). lia.
+  - apply IH, H.
+Qed.
+
+Lemma nondecr_pairs t1 e1 t2 e2 t3 p1 p2 :
+  nondecr 0 (t1 ++ e1 :: t2 ++ e2 :: t3) = true ->
+  tp_ev_phase e1 = Some p1 -> tp_ev_phase e2 = Some p2 -> p1 <= p2.
+Proof.
+  intros H H1 H2. rewrite nondecr_app in H. apply andb_true_iff in H as [_ H].
+  cbn [nondecr] in H. rewrite H1 in H. apply andb_true_iff in H as [_ H].
+  apply (nondecr_ge _ _ H e2 p2); [apply in_or_app; right; left; reflexivity | exact H2].
+Qed.
+
+Definition Ord (s : tp_state) : Prop :=
+  nondecr 0 (st_trace s) = true /\ last_ph 0 (st_trace s) = st_last s /\ st_last s <= 5.
+
+Lemma ord_snoc s e p :
+  tp_ev_phase e = Some p -> st_last s <= p -> p <= 5 -> Ord s ->
+  forall s', st_trace s' = st_trace s ++ [e] -> st_last s' = p -> Ord s'.
+Proof.
+  intros Hp Hle H5 (A & B & C) s' Ht Hl. unfold Ord. rewrite Ht, Hl, nondecr_app, last_ph_app, A, B.
+  cbn [nondecr last_ph andb]. rewrite Hp. repeat split; try lia.
+  rewrite andb_true_r. apply N.leb_le, Hle.
+Qed.
+
+Lemma ord_eval_rule p r s : st_last s = p -> Ord s -> Ord (tp_eval_rule p r s).
+Proof.
+  intros Hl H. destruct (eval_rule_core p r s) as (Ht & _ & _ & Hl').
+  destruct (rule_event_shape p r s) as [st Est]. rewrite Est in Ht.
+  assert (p <= 5) by (destruct H as (_ & _ & C); lia).
+  apply (ord_snoc s (EvRule p r st) p); try assumption; try reflexivity; try lia.
+Qed.
+
+Lemma ord_eval_loop p rs : forall s, st_last s = p -> Ord s -> Ord (tp_eval_loop p rs s).
+Proof.
+  induction rs as [|r rs IH]; intros s Hl H; cbn [tp_eval_loop]; [exact H|].
+  destruct (is_some (st_intr s) && negb (p =? 5)); [exact H|].
+  destruct (negb (r_phase r =? p)); [apply IH; assumption|].
+  assert (Go : Ord (tp_eval_loop p rs (tp_eval_rule p r s))).
+  { apply IH; [rewrite eval_rule_last; exact Hl | apply ord_eval_rule; assumption]. }
+  destruct (st_allow s) as [[]|]; try exact Go; try exact H.
+  - destruct (p =? 1); [exact H|]. destruct (p =? 2); [exact H | exact Go].
+  - destruct (p =? 5); [exact Go | exact H].
+Qed.
+
+Lemma ord_eval_phase c p s : eval_pre s p -> Ord s -> Ord (tp_eval_phase c p s).
+Proof.
+  intros Hp H. unfold tp_eval_phase.
+  assert (H1 : Ord (add_event (set_last s p) (EvPhase p))).
+  { apply (ord_snoc s (EvPhase p) p); try reflexivity; try exact H.
+    - destruct H as (_ & _ & C). destruct Hp as [(A & B & _) | ->]; lia.
+    - destruct Hp as [(A & _) | ->]; lia. }
+  assert (H2 : Ord (tp_eval_loop p (c_rules c) (add_event (set_last s p) (EvPhase p)))).
+  { apply ord_eval_loop; [reflexivity | exact H1]. }
+  destruct (st_allow _) as [[]|]; exact H2.
+Qed.
+
+Lemma ord_limit_intr s st : Ord s -> Ord (tp_limit_intr s st).
+Proof.
+  intros (A & B & C). unfold tp_limit_intr, Ord. sx.
+  destruct (st_intr s); sx; rewrite nondecr_app, last_ph_app, A, B; cbn; auto.
+Qed.
+
+Lemma ord_run c ks : Ord (tp_run c ks).
+Proof.
+  unfold tp_run. apply (run_from_pres Ord c).
+  - intros s k H. apply step_pres_gen; auto using ord_limit_intr.
+    intros s0 p H0 Hp. apply ord_eval_phase; assumption.
+  - unfold Ord. cbn. repeat split; try reflexivity. lia.
+Qed.
+
+Lemma phase_order_holds c ks t1 e1 t2 e2 t3 p1 p2 :
+  st_trace (tp_run c ks) = t1 ++ e1 :: t2 ++ e2 :: t3 ->
+  tp_ev_phase e1 = Some p1 -> tp_ev_phase e2 = Some p2 -> p1 <= p2.
+Proof.
+  intros E. destruct (ord_run c ks) as (A & _). rewrite E in A. apply (nondecr_pairs _ _ _ _ _ _ _ A).
+Qed.
+
+(* ---------------------------------------------------------------------------------- *)
+(* every evaluated rule is a rule of the configuration, evaluated in its own phase      *)
+(* ---------------------------------------------------------------------------------- *)
+
+Definition rule_events_ok (c : tp_cfg) (t : list tp_event) : Prop :=
+  Forall (fun e => match e with EvRule p r _ => In r (c_rules c) /\ r_phase r = p | _ => True end) t.
+
+Lemma prefix_in {A} (l : list A) n x : In x (firstn n l) -> In x l.
+Proof. revert n. induction l as [|y l IH]; intros [|n]; cbn; try tauto. intros [->|H]; [auto | right; apply (IH n H)]. Qed.
+
+Lemma rules_in_config_eval_phase c p s :
+  rule_events_ok c (st_trace s) -> rule_events_ok c (st_trace (tp_eval_phase c p s)).
+Proof.
+  intro H. destruct (eval_phase_prefix_holds c p s) as (evs & Ht & Hf). rewrite Ht.
+  unfold rule_events_ok. apply Forall_app. split; [exact H|]. constructor; [exact I|].
+  remember (firstn (length evs) (tp_phase_rules c p)) as l eqn:El.
+  assert (Hl : forall r, In r l -> In r (c_rules c) /\ r_phase r = p).
+  { intros r Hr. rewrite El in Hr. apply prefix_in in Hr. unfold tp_phase_rules in Hr.
+    apply filter_In in Hr as [A B]. split; [exact A | apply N.eqb_eq, B]. }
+  clear El Ht. revert Hl. induction Hf as [|e r evs' l' HR _ IH]; intro Hl; constructor.
+  - destruct HR as [st ->]. apply Hl. left. reflexivity.
+  - apply IH. intros r' Hr'. apply Hl. right. exact Hr'.
+Qed.
+
+Lemma rules_in_config_holds c ks : rule_events_ok c (st_trace (tp_run c ks)).
+Proof.
+  unfold tp_run. apply (run_from_pres (fun s => rule_events_ok c (st_trace s)) c).
+  - intros s k H. apply (step_pres_gen (fun s => rule_events_ok c (st_trace s))); auto.
+    + intros s0 st H0. unfold tp_limit_intr. sx. destruct (st_intr s0); sx;
+        apply Forall_app; (split; [exact H0 | constructor; [exact I | constructor]]).
+    + intros s0 p H0 _. apply rules_in_config_eval_phase, H0.
+  - constructor.
+Qed.
+
+(* ---------------------------------------------------------------------------------- *)
+(* every rule of phases 1-4 is evaluated at most once                                   *)
+(* ---------------------------------------------------------------------------------- *)
+
+Lemma count_rule_app id t1 t2 :
+  tp_count_rule id (t1 ++ t2) = (tp_count_rule id t1 + tp_count_rule id t2)%nat.
+Proof. unfold tp_count_rule. rewrite filter_app, app_length. reflexivity. Qed.
+
+Lemma count_phase_app p t1 t2 :
+  tp_count_phase p (t1 ++ t2) = (tp_count_phase p t1 + tp_count_phase p t2)%nat.
+Proof. unfold tp_count_phase. rewrite filter_app, app_length. reflexivity. Qed.
+
+Definition id_count (id : N) (l : list tp_rule) : nat := length (filter (fun r => r_id r =? id) l).
+
+Lemma count_rule_block p id evs l :
+  Forall2 (is_rule_event p) evs l -> tp_count_rule id evs = id_count id l.
+Proof.
+  unfold tp_count_rule, id_count. induction 1 as [|e r evs l [st ->] _ IH]; [reflexivity|].
+  cbn [filter]. destruct (r_id r =? id); cbn [length]; rewrite IH; reflexivity.
+Qed.
+
+Lemma count_phase_block p q evs l :
+  Forall2 (is_rule_event p) evs l -> tp_count_phase q evs = 0%nat.
+Proof.
+  unfold tp_count_phase. induction 1 as [|e r evs l [st ->] _ IH]; [reflexivity|]. cbn [filter]. exact IH.
+Qed.
+
+Lemma id_count_firstn id l n : (id_count id (firstn n l) <= id_count id l)%nat.
+Proof.
+  unfold id_count. revert n. induction l as [|a l IH]; intros [|n]; cbn [firstn filter length]; try lia.
+  specialize (IH n). destruct (r_id a =? id); cbn [length]; lia.
+Qed.
+
+Lemma id_count_filter id (g : tp_rule -> bool) l : (id_count id (filter g l) <= id_count id l)%nat.
+Proof.
+  unfold id_count. induction l as [|a l IH]; cbn [filter length]; [lia|].
+  destruct (g a); cbn [filter]; destruct (r_id a =? id); cbn [length]; lia.
+Qed.
+
+Lemma id_count_notin id l : ~ In id (map r_id l) -> id_count id l = 0%nat.
+Proof.
+  unfold id_count. induction l as [|a l IH]; intro H; cbn [filter]; [reflexivity|].
+  destruct (N.eqb_spec (r_id a) id) as [E|E].
+  - exfalso. apply H. left. exact E.
+  - apply IH. intro K. apply H. right. exact K.
+Qed.
+
+Lemma id_count_nodup id l : NoDup (map r_id l) -> (id_count id l <= 1)%nat.
+Proof.
+  induction l as [|a l IH]; intro H; [cbn; lia|]. cbn [map] in H. inversion H as [|x xs Hn Hd]; subst.
+  unfold id_count in *. cbn [filter]. destruct (N.eqb_spec (r_id a) id) as [E|E]; cbn [length].
+  - rewrite <- E. pose proof (id_count_notin (r_id a) l Hn) as K. unfold id_count in K. rewrite K. lia.
+  - apply IH, Hd.
+Qed.
+
+Lemma id_count_pos_in id l : (0 < id_count id l)%nat -> exists r, In r l /\ r_id r = id.
+Proof.
+  unfold id_count. induction l as [|a l IH]; cbn [filter length]; [lia|].
+  destruct (N.eqb_spec (r_id a) id) as [E|E].
+  - intros _. exists a. split; [left; reflexivity | exact E].
+  - intro H. destruct (IH H) as (r & A & B). exists r. split; [right; exact A | exact B].
+Qed.
+
+Lemma nodup_map_inj (l : list tp_rule) a b :
+  NoDup (map r_id l) -> In a l -> In b l -> r_id a = r_id b -> a = b.
+Proof.
+  induction l as [|x l IH]; intros H Ha Hb E; [contradiction|].
+  cbn [map] in H. inversion H as [|y ys Hn Hd]; subst.
+  destruct Ha as [->|Ha], Hb as [->|Hb]; try reflexivity.
+  - exfalso. apply Hn. rewrite E. apply in_map, Hb.
+  - exfalso. apply Hn. rewrite <- E. apply in_map, Ha.
+  - apply IH; assumption.
+Qed.
+
+Section Once.
+Variable c : tp_cfg.
+Hypothesis Hnd : NoDup (map r_id (c_rules c)).
+
+Definition Once (s : tp_state) : Prop :=
+  forall r, In r (c_rules c) ->
+  (tp_count_rule (r_id r) (st_trace s) <= tp_count_phase (r_phase r) (st_trace s))%nat.
+
+Lemma once_eval_phase p s : Once s -> Once (tp_eval_phase c p s).
+Proof.
+  intros H r Hr. destruct (eval_phase_prefix_holds c p s) as (evs & Ht & Hf). rewrite Ht.
+  change (st_trace s ++ EvPhase p :: evs) with (st_trace s ++ [EvPhase p] ++ evs).
+  rewrite !count_rule_app, !count_phase_app.
+  rewrite (count_rule_block p _ _ _ Hf), (count_phase_block p _ _ _ Hf).
+  specialize (H r Hr).
+  assert (A : tp_count_rule (r_id r) [EvPhase p] = 0%nat) by reflexivity. rewrite A.
+  assert (B : tp_count_phase (r_phase r) [EvPhase p] = if p =? r_phase r then 1%nat else 0%nat).
+  { unfold tp_count_phase. cbn [filter]. destruct (p =? r_phase r); reflexivity. }
+  rewrite B.
+  pose proof (id_count_firstn (r_id r) (tp_phase_rules c p) (length evs)) as C1.
+  pose proof (id_count_filter (r_id r) (fun r => r_phase r =? p) (c_rules c)) as C2.
+  pose proof (id_count_nodup (r_id r) (c_rules c) Hnd) as C3.
+  fold (tp_phase_rules c p) in C2.
+  destruct (N.eqb_spec p (r_phase r)) as [E|E]; [lia|].
+  assert (Z : id_count (r_id r) (tp_phase_rules c p) = 0%nat).
+  { destruct (id_count (r_id r) (tp_phase_rules c p)) eqn:K; [reflexivity|]. exfalso.
+    destruct (id_count_pos_in (r_id r) (tp_phase_rules c p)) as (r' & Hin & Hid); [lia|].
+    unfold tp_phase_rules in Hin. apply filter_In in Hin as [Hin Hph]. apply N.eqb_eq in Hph.
+    assert (r' = r) by (apply (nodup_map_inj (c_rules c)); assumption). subst r'. congruence. }
+  lia.
+Qed.
+
+Lemma once_run ks : Once (tp_run c ks).
+Proof.
+  unfold tp_run. apply (run_from_pres Once c).
+  - intros s k H. apply (step_pres_gen Once c); auto.
+    + intros s0 st H0 r Hr. specialize (H0 r Hr). unfold tp_limit_intr. sx.
+      destruct (st_intr s0); sx; rewrite count_rule_app, count_phase_app; cbn; lia.
+    + intros s0 p H0 _. apply once_eval_phase, H0.
+  - intros r _. cbn. lia.
+Qed.
+
+Lemma rule_at_most_once_holds ks r :
+  In r (c_rules c) -> 1 <= r_phase r <= 4 ->
+  (tp_count_rule (r_id r) (st_trace (tp_run c ks)) <= 1)%nat.
+Proof.
+  intros Hr Hp. pose proof (once_run ks r Hr) as A.
+  pose proof (phase_at_most_once_holds c ks (r_phase r) Hp). lia.
+Qed.
+End Once.
